@@ -134,6 +134,7 @@ RULE = (
     "settings and the high-accuracy CLARABEL pass-through. Oracle = scipy BVLS (active set) on (W A', W(b-base')) and the HiGHS "
     "distance LP. Tolerances are the ones in the property statement (2e-2 / 1% default, 2e-3 / 1e-6 high accuracy). Non-trivial = a "
     "bound active at the oracle optimum, or a target below the baseline, or an under-determined system."
+    " A sixth of the under-determined systems have two sources with proportional captures; targets also as nested lists; C / Fortran / strided memory layouts."
 )
 
 PROP = Prop(
